@@ -128,7 +128,14 @@ class CoreExec(object):
                     return istr[0]
                 else:
                     return None
-        i = self.cpu.disassemble(istr[0], **kargs)
+        # an instruction may cross the boundary of two adjacent memory
+        # objects: decode the concatenation of the leading raw parts
+        code = istr[0]
+        for part in istr[1:]:
+            if not isinstance(part, bytes):
+                break
+            code += part
+        i = self.cpu.disassemble(code, **kargs)
         if i is None:
             logger.warning("disassemble failed at vaddr %s" % addr)
             return None
